@@ -627,10 +627,14 @@ func (ev *Env) evalBin(x *EBin) Value {
 		case "*":
 			r = "(* " + sa.T + " " + sb.T + ")"
 		case "/":
-			// spec-level division: mathematical floor division is used only on non-negative operands in contracts
-			r = "(div " + sa.T + " " + sb.T + ")"
+			// Go's truncated division (same meaning as in the code)
+			r = "(ite (>= " + sa.T + " 0) (ite (> " + sb.T + " 0) (div " + sa.T + " " + sb.T + ") (- (div " + sa.T + " (- " + sb.T + ")))) (ite (> " + sb.T + " 0) (- (div (- " + sa.T + ") " + sb.T + ")) (div (- " + sa.T + ") (- " + sb.T + "))))"
+			if l, ok := b.(LitV); ok && l.V.Sign() > 0 {
+				r = "(ite (>= " + sa.T + " 0) (div " + sa.T + " " + sb.T + ") (- (div (- " + sa.T + ") " + sb.T + ")))"
+			}
 		case "%":
-			r = "(mod " + sa.T + " " + sb.T + ")"
+			// Go's remainder: sign follows the dividend
+			r = "(ite (>= " + sa.T + " 0) (mod " + sa.T + " " + sb.T + ") (- (mod (- " + sa.T + ") " + sb.T + ")))"
 		case "<<":
 			if l, ok := b.(LitV); ok {
 				r = fmt.Sprintf("(* %s %s)", sa.T, new(big.Int).Lsh(big.NewInt(1), uint(l.V.Int64())).String())
@@ -1020,6 +1024,11 @@ func (ev *Env) evalCall(x *ECall) Value {
 			ref = ev.asScalar(v).T
 		}
 		return Scalar{"(and (<= 0 " + ref + ") (<= " + ref + " " + fc.allocTerm(ev.cur()) + "))", "Bool", types.Typ[types.Bool]}
+	case "oncedone":
+		v := arg(0)
+		key, ref, _, _ := fc.lockKey(v)
+		key = "ONCE!" + strings.TrimPrefix(key, "L!")
+		return Scalar{"(select " + fc.compTerm(ev.cur(), key, "(Array Int Bool)") + " " + ref + ")", "Bool", types.Typ[types.Bool]}
 	case "held":
 		v := arg(0)
 		key, ref, _, _ := fc.lockKey(v)
@@ -1081,6 +1090,9 @@ func (ev *Env) evalCall(x *ECall) Value {
 			ev.fail("unbox: unknown type %s", tn)
 		}
 		srt := fc.sortOf(t)
+		if pay, ok := fc.boxed[v.T+"|"+shortType(t)]; ok {
+			return Scalar{pay, srt, t}
+		}
 		_, un := fc.boxFn(t, srt)
 		return Scalar{"(" + un + " " + v.T + ")", srt, t}
 	case "tagis":
